@@ -50,6 +50,16 @@ Theorem source_text_is_repaired : src_flags = model_flags.
 Proof. exact src_flags_ok. Qed.
 Print Assumptions source_text_is_repaired.
 
+(* ... and the variant record that flag list denotes is the `repaired` every theorem of Props/C10.v
+   is stated for (cfg_of_flags reads each named flag into its field of cfg; the all-false list
+   denotes `pinned`, so the reading is not constant) *)
+Theorem source_variant_is_repaired : cfg_of_flags src_flags = Some repaired.
+Proof. exact src_cfg_ok. Qed.
+Print Assumptions source_variant_is_repaired.
+Theorem all_false_flags_are_pinned : cfg_of_flags (map (fun f => (f, Some false)) flag_names) = Some pinned.
+Proof. exact pinned_flags_cfg. Qed.
+Print Assumptions all_false_flags_are_pinned.
+
 Theorem source_child_indices : src_reads = model_reads.
 Proof. exact src_reads_ok. Qed.
 Print Assumptions source_child_indices.
